@@ -11,7 +11,7 @@ EVIDENCE = dict(
     level="model_checking",
     rule="select: every sequence of <= 2 builder calls (Pages with <= 2 arguments from 0..4, PageRange over 0..4 incl. reversed) on a "
          "3-page document, expectation = set semantics computed by PageSelect.tla, checked through Text(), Document() page numbers "
-         "and Chunks() page metadata; selectopts: every sequence of <= 2 builder calls over {1,2,4,5,6} on a 5-page document (cover page without the running header, last page without the footer, one two-column page) x 10 option combinations (ExcludeHeaders / ExcludeFooters / ExcludeHeadersAndFooters / ByColumn / JoinParagraphs / PreserveLayout and pairs), options chained before and after the selection, expectation = the tokens the whole document gives for the selected pages under the same options. lifecycle: every history of 4 operations (derive with Pages(4) / Pages(5) / PageRange(1,3) / Pages(99) / ByColumn, PageCount, "
+         "and Chunks() page metadata; selectopts: every sequence of <= 2 builder calls over {1,2,3,5,6} on a 5-page document (page 3 a real two-column page of 24 lines) (cover page without the running header, last page without the footer, one two-column page) x 10 option combinations (ExcludeHeaders / ExcludeFooters / ExcludeHeadersAndFooters / ByColumn / JoinParagraphs / PreserveLayout and pairs), options chained before and after the selection, expectation = the tokens the whole document gives for the selected pages under the same options. lifecycle: every history of 4 operations (derive with Pages(4) / Pages(5) / PageRange(1,3) / Pages(99) / ByColumn, PageCount, "
          "Text, Close) over <= 4 extractors from Lifecycle.tla replayed on real extractors with /proc/self/fd counted after each step; recorded histories "
          "validated by LifecycleTrace.tla. The option-only histories also run on twelve damaged or absent documents (catalog without /Pages, /Pages not a dictionary, huge /Count, missing kid, broken content stream, garbage, empty file, broken DOCX / XLSX / EPUB archives, absent file): only panics and descriptors are judged there. Non-trivial = selection other than 'all pages' / history with >= 2 operations.",
     assumptions=["pdfdoc renders the 3-page document faithfully", "/proc/self/fd counts the process's descriptors"],
